@@ -167,11 +167,99 @@ def with_cse_twin(p, rng):
     return q if sc.feasible(q) else p
 
 
+_CONN = []
+
+
+def _conn_class():
+    """module-level Handle subclass (picklable, registered once)"""
+    if not _CONN:
+        from redun import Handle
+
+        class C28Conn(Handle):
+            def __init__(self, name, uri, namespace=None):
+                self.uri = uri
+        C28Conn.__module__ = __name__
+        C28Conn.__qualname__ = "C28Conn"
+        globals()["C28Conn"] = C28Conn
+        _CONN.append(C28Conn)
+    return _CONN[0]
+
+
+def handle_histories(ctx, tmp):
+    """oracle only (the scheduler-core model has no Handles): workflows that thread a Handle through their tasks.  The fork of
+    a Handle argument enters the job's cache key, so the dry run must derive the same keys as the real run."""
+    from redun import Handle, task
+    from redun.scheduler import DryRunResult
+    ctl_sched.quiet()
+    calls = []
+
+    Conn = _conn_class()
+
+    def mk(version):
+        @task(namespace="c28h", name="create", version="1")
+        def create(conn):
+            calls.append("create")
+            return conn
+
+        @task(namespace="c28h", name="insert", version=version)
+        def insert(conn, n):
+            calls.append("insert")
+            return conn
+
+        @task(namespace="c28h", name="count", version="1")
+        def count(conn, other=None):
+            calls.append("count")
+            return 3
+
+        @task(namespace="c28h", name="main", version="1")
+        def main(shape):
+            conn = create(Conn("conn", "db://x"))
+            if shape == "chain":
+                return count(insert(conn, 3))
+            if shape == "fork":
+                return [count(insert(conn, 1)), count(insert(conn, 2))]
+            return count(insert(conn, 1), other=[insert(conn, 2), {"k": conn}])
+        return main
+
+    def one(db, version, shape, dryrun):
+        del calls[:]
+        sched = ctl_sched.make_scheduler(None, db_uri="sqlite:///" + db)
+        try:
+            out = ("ok", sched.run(mk(version)(shape), dryrun=dryrun))
+        except DryRunResult:
+            out = ("dryrun", None)
+        except Exception as e:  # noqa: BLE001
+            out = ("err", type(e).__name__ + ": " + str(e)[:120])
+        sched.backend.session.close()
+        return out, list(calls)
+
+    for shape in ("chain", "fork", "nested"):
+        for history in ("cached", "edited"):
+            db = os.path.join(tmp, "h-%s-%s.db" % (shape, history))
+            one(db, "1", shape, False)
+            v = "1" if history == "cached" else "2"
+            shutil.copy(db, db + ".dry")
+            shutil.copy(db, db + ".real")
+            (std, vd), dcalls = one(db + ".dry", v, shape, True)
+            (strr, vr), rcalls = one(db + ".real", v, shape, False)
+            case = {"shape": shape, "history": history, "dry": std, "real": strr, "real_calls": rcalls}
+            ctx.case(key=("handles", shape, history), sample=case, history="handles-" + history, dry=std, real=strr)
+            if dcalls:
+                ctx.violation("C28-dryrun-submits", "a dry run called a task function", case=case, expected=[], actual=dcalls, kind="history")
+            if std == "ok" and (strr != "ok" or vr != vd or rcalls):
+                ctx.violation("C28-complete-dryrun-but-real-run-executes", "dry run completed but the real run executed tasks or returned "
+                              "something else", case=case, expected=(std, repr(vd)), actual=(strr, repr(vr), rcalls), kind="history")
+            if std == "dryrun" and not rcalls:
+                ctx.violation("C28-dryrun-stops-but-nothing-to-run", "dry run reported additional jobs but the real run executed no task "
+                              "(Handle-threading workflow)", case=case, expected=">= 1 task executed", actual=(strr, rcalls), kind="history")
+
+
 def run(ctx):
     rng = ctx.rng
     items = []
     tmp = tempfile.mkdtemp(prefix="verif-c28-")
     try:
+        handle_histories(ctx, tmp)
         kinds = ["empty", "rerun", "rerun", "edit", "edit"]
         for i in range(ctx.n(30, 500)):
             p = sc.gen_program(rng, p_fail=0.12, p_limits=0.3, allow_badexec=(i % 5 == 0))
